@@ -10,6 +10,9 @@ RULE = ("reference-encoded messages (plain and arbitrarily compressed) over all 
         "record equals ResourceRecord::parse run on the message cut at the end of its RDLENGTH. non-trivial = input accepted")
 
 
+VALID = set()      # reference encodings of well-formed packets: these must be accepted
+
+
 def cases(rng, tier):
     out = []
     n = 1500 if tier == "quick" else 15000
@@ -17,6 +20,14 @@ def cases(rng, tier):
         p["opt"] = None if k % 3 else p["opt"]
         b, marks = dns.encode_marked(p, rng, rng.choice([0, 0, 3]))
         out.append("PARSE " + b.hex())
+        VALID.add(out[-1])
+        if k % 3 == 0 and len(b) >= 12:
+            # header words that coincide with quantities derived from the message itself (its length, the length of what
+            # follows the ID, as a stream transport's two-byte length prefix would be) are still just an ID
+            for d in (2, 0, 1, 12):
+                out.append("PARSE " + ((len(b) - d) & 0xFFFF).to_bytes(2, "big").hex() + b[2:].hex())
+                VALID.add(out[-1])
+            out.append("PARSE " + len(b).to_bytes(2, "big").hex() + b.hex())
         rdl = [m for m in marks if m[2] == "rdlen"]
         if rdl:
             pos = rng.choice(rdl)[0]
@@ -72,8 +83,12 @@ def oracle(case, out):
     if out.startswith("PANIC") or out in ("HANG", "CRASH"):
         return "%s on input %s" % (out, case[:300])
     if not out.startswith("OK "):
+        if case in VALID and out.startswith("ERR"):
+            return "the reference encoding of a well-formed packet is rejected (%s): %s" % (out, case.split()[1][:300])
         return None
     d, p, w = _entries(case, out)
+    if p["id"] != int.from_bytes(d[:2], "big"):
+        return "the ID reported (%d) is not the first two bytes of the message: %s" % (p["id"], case.split()[1][:300])
     if w is None:
         return "accepted a message whose counts or lengths run past its end: %s" % case.split()[1][:300]
     if len(p["qs"]) != len(w["qs"]):
